@@ -20,12 +20,27 @@ static const char * const VN[V_N] = { "t_1", "t_inf", "create_task", "wait_tasks
 				      "create_task", "wait_tasks", "end_task", "work", "critical_path", "dag_nodes", "end", "create", "create_cont", "wait_cont", "other_cont" };
 
 typedef struct { long v[V_N]; long n_workers, elapsed, materialized; int have[V_N], warned, ok; char text[3000]; } stat_t;
-static void parse_stat(const char * prefix, stat_t * st) {
+/* The recorder writes <prefix>.stat through fopen/fprintf/fclose.  <prefix>.stat is a FIFO that lives in this worker's
+   scratch directory under build/ and whose read end this process holds: the text arrives here without a create /
+   truncate / unlink of a regular file per case (with 16 processes those serialise on the file system's journal and
+   made the quick tier take minutes). */
+static int STAT_FD = -1; static char STAT_FOR[260];
+static void stat_prepare(const char * prefix) {
   char fn[260]; snprintf(fn, sizeof fn, "%s.stat", prefix);
+  if (STAT_FD < 0 || strcmp(fn, STAT_FOR)) {
+    if (STAT_FD >= 0) close(STAT_FD);
+    unlink(fn);
+    if (mkfifo(fn, 0644)) { perror(fn); }
+    STAT_FD = open(fn, O_RDONLY | O_NONBLOCK); strcpy(STAT_FOR, fn);
+  }
+  char junk[4096]; while (read(STAT_FD, junk, sizeof junk) > 0) {}      /* leftovers of a dump that was cut short */
+}
+static void parse_stat(const char * prefix, stat_t * st) {
+  (void)prefix;
   memset(st, 0, sizeof *st); st->n_workers = st->elapsed = st->materialized = -1;
-  int fd = open(fn, O_RDONLY); if (fd < 0) return;
-  ssize_t r = read(fd, st->text, sizeof st->text - 1); close(fd); if (r <= 0) return; st->text[r] = 0;
-  unlink(fn);
+  ssize_t r = 0, x;
+  while (r < (ssize_t)sizeof st->text - 1 && (x = read(STAT_FD, st->text + r, sizeof st->text - 1 - r)) > 0) r += x;
+  if (r <= 0) return; st->text[r] = 0;
   static const struct { const char * name; int idx; } F[] = { { "create_task", V_S_CREATE }, { "wait_tasks", V_S_WAIT }, { "end_task", V_S_END },
     { "work (T1)", V_S_WORK }, { "critical_path (T_inf)", V_S_TINF }, { "dag nodes", V_S_NODES } };
   static const char * const EH[EK_MAX] = { "end-parent edges:", "create-child edges:", "create-cont edges:", "wait-cont edges:", "other-cont edges:" };
@@ -98,6 +113,7 @@ static void component_case(void) {
   /* (3) the .stat file */
   long in_memory = dr_dag_count_nodes(GS.root);
   if (ri->cur_node_count != in_memory) found("materialized-count:root.cur_node_count", NULL, "root cur_node_count = %ld, %ld nodes are in memory", ri->cur_node_count, in_memory);
+  stat_prepare(SCRATCH);
   dr_dump_();
   static stat_t st; parse_stat(SCRATCH, &st);
   if (CASE.verbose) {
